@@ -299,6 +299,9 @@ pub struct ForestProfile {
     /// let one node carry several spellings (canonical and aliases) of one property, with
     /// different values (C07: any tree is a legal input of the determinism property)
     pub multi_spelling: bool,
+    /// also give known classes properties the database marks DoesNotSerialize (Part.Position,
+    /// Mass, ...): both codecs drop them, and nothing else may change
+    pub non_serializing: bool,
 }
 
 pub const KNOWN_CLASS_POOL: &[&str] = &[
@@ -611,6 +614,26 @@ fn resolve(raw: Vec<RawNode>, root_sel: Vec<u16>, shape: u8, profile: &ForestPro
         let mut canon_seen: HashSet<String> = HashSet::new();
         for rp in &r.props {
             let use_known = known_class && rp.kind <= 6 && !cp.plain.is_empty();
+            if profile.non_serializing && known_class && rp.kind == 6 && rp.seed % 2 == 0 && !cp.non_serializing.is_empty() {
+                let candidates: Vec<&dbview::Spelling> = cp
+                    .non_serializing
+                    .iter()
+                    .filter(|s| match &s.view.canonical_ty {
+                        Ty::Value(t) => profile.types.contains(t) && *t != VariantType::Ref,
+                        Ty::Enum(_) => profile.types.contains(&VariantType::Enum),
+                    })
+                    .collect();
+                if let Some(sp) = pick(rp.sel, &candidates) {
+                    if canon_seen.insert(format!("(dns){}", sp.name)) {
+                        let val = match &sp.view.canonical_ty {
+                            Ty::Enum(_) => GVal::Enum((rp.seed >> 8) as u32 % 5),
+                            Ty::Value(t) => value_from_seed(*t, profile.vals, rp.seed),
+                        };
+                        props.push((sp.name.clone(), resolve_refs(val, n)));
+                    }
+                    continue;
+                }
+            }
             if use_known {
                 let candidates: Vec<&dbview::Spelling> = cp
                     .plain
